@@ -7,8 +7,9 @@ use std::collections::BTreeMap;
 use std::hash::{Hash, Hasher};
 use std::panic::{catch_unwind, AssertUnwindSafe};
 
-#[derive(Clone, Debug, serde::Serialize, serde::Deserialize)]
+#[derive(Debug, serde::Serialize, serde::Deserialize)]
 struct It { id: u16, tag: u32, #[serde(skip, default)] own: Box<u8> }   // `own`: a heap allocation, so that Miri sees a double drop
+impl Clone for It { fn clone(&self) -> Self { tick("user Clone::clone"); It { id: self.id, tag: self.tag, own: Box::new(*self.own) } } }
 impl PartialEq for It { fn eq(&self, o: &Self) -> bool { tick("user Eq::eq"); self.id == o.id } }
 impl Eq for It {}
 impl Hash for It { fn hash<H: Hasher>(&self, h: &mut H) { tick("user Hash::hash"); self.id.hash(h) } }
@@ -87,6 +88,7 @@ trait Q: Clone {
     /// iter_mut consumed from both ends following `bits`: addresses handed out, and what came after the first None
     fn iter_mut_walk(&mut self, bits: u64, calls: usize) -> Result<(), String>;
     fn retain_all(&mut self, mutable: bool);
+    fn clone_from_q(&mut self, o: &Self);
     fn append_roomy(&mut self, v: Vec<(It, i32)>, room: usize) -> (usize, usize, usize);
     /// comparison counts of single-element operations and bulk constructions on a queue of n elements
     fn cost_probe(n: usize) -> Result<(), String>;
@@ -119,6 +121,7 @@ macro_rules! common { ($T:ident) => {
     fn from_it(v: Vec<(It, i32)>, lo: usize, hi: Option<usize>) -> Self { Hinted { it: pr(v).into_iter(), lo, hi }.collect() }
     fn roundtrip(&self) -> Result<Self, String> { let s = serde_json::to_string(self).map_err(|e| e.to_string())?; serde_json::from_str(&s).map_err(|e| e.to_string()) }
     fn same(&self, o: &Self) -> bool { self == o }
+    fn clone_from_q(&mut self, o: &Self) { self.clone_from(o) }
     fn retain_all(&mut self, mutable: bool) { if mutable { $T::retain_mut(self, |_, _| true) } else { $T::retain(self, |_, _| true) } }
     fn append_roomy(&mut self, v: Vec<(It, i32)>, room: usize) -> (usize, usize, usize) {
         let mut o: Self = pr(v).into_iter().collect(); o.reserve(room); self.append(&mut o); (o.len(), o.iter().count(), o.iter().len()) }
@@ -129,6 +132,9 @@ macro_rules! common { ($T:ident) => {
         let asc: Vec<(It, Pr)> = (0..n).map(|j| (It { id: j as u16, tag: 0, own: Box::new(0) }, Pr(j as i32))).collect();
         macro_rules! cost { ($what:expr, $limit:expr, $e:expr) => { let c0 = cmps(); let _ = $e; let c = cmps() - c0; if std::env::var("PQ_CEX_COSTS").is_ok() { eprintln!("{:55} {:8} / {}", $what, c, $limit); } if c > $limit { return Err(format!("{} on {} elements: {} comparisons, budget {}", $what, n, c, $limit)); } } }
         cost!("from(Vec)", bulk, { let q: Self = $T::from(asc.clone()); q });
+        let mut x = 12345u64; let rnd: Vec<(It, Pr)> = (0..n).map(|j| { x = x.wrapping_mul(6364136223846793005).wrapping_add(1442695040888963407); (It { id: j as u16, tag: 0, own: Box::new(0) }, Pr((x >> 40) as i32)) }).collect();
+        cost!("from(Vec) with unordered priorities", bulk, { let q: Self = $T::from(rnd.clone()); q });
+        cost!("collect() from an unordered iterator", bulk, { let q: Self = rnd.clone().into_iter().collect(); q });
         cost!("collect() from an ascending iterator", bulk, { let q: Self = asc.clone().into_iter().collect(); q });
         let mut q: Self = asc.clone().into_iter().collect();
         cost!("extend with n new pairs", 2 * bulk, q.extend((n..2 * n).map(|j| (It { id: j as u16, tag: 0, own: Box::new(0) }, Pr(j as i32)))));
@@ -209,7 +215,8 @@ impl Q for PriorityQueue<It, Pr> {
     fn sorted_desc(self) -> Vec<It> { self.into_sorted_vec() }
     fn pop_hi_if_panic(&mut self) { self.pop_if(|_, p| { *p -= 900; panic!("user predicate") }); }
     fn iter_mut_walk(&mut self, bits: u64, calls: usize) -> Result<(), String> { let n = PriorityQueue::len(self); let mut it = self.iter_mut();
-        walk(n, bits, calls, |_back, skip| if skip > 0 { it.nth(skip) } else { it.next() }.map(|(_, p)| p as *mut Pr as usize)) }
+        let used = walk(n, bits, calls, |_back, skip| if skip > 0 { it.nth(skip) } else { it.next() }.map(|(_, p)| p as *mut Pr as usize))?;
+        hint_ok(n.saturating_sub(used), catch_unwind(AssertUnwindSafe(|| it.size_hint()))) }
     fn sorted_iter_lens(self, k: usize) -> Result<(), String> { let n = PriorityQueue::len(&self); let mut it = self.into_sorted_iter(); let mut left = n;
         for _ in 0..=k { let (lo, hi) = it.size_hint(); if lo > left || hi.map_or(false, |h| h < left) { return Err(format!("into_sorted_iter: size_hint {:?} with {} elements left", (lo, hi), left)); }
             if it.next().is_some() { left -= 1; } } Ok(()) }
@@ -228,7 +235,8 @@ impl Q for DoublePriorityQueue<It, Pr> {
     fn sorted_desc(self) -> Vec<It> { self.into_descending_sorted_vec() }
     fn pop_hi_if_panic(&mut self) { self.pop_max_if(|_, p| { *p -= 900; panic!("user predicate") }); }
     fn iter_mut_walk(&mut self, bits: u64, calls: usize) -> Result<(), String> { let n = DoublePriorityQueue::len(self); let mut it = self.iter_mut();
-        walk(n, bits, calls, |back, skip| if skip > 0 { if back { it.nth_back(skip) } else { it.nth(skip) } } else if back { it.next_back() } else { it.next() }.map(|(_, p)| p as *mut Pr as usize)) }
+        let used = walk(n, bits, calls, |back, skip| if skip > 0 { if back { it.nth_back(skip) } else { it.nth(skip) } } else if back { it.next_back() } else { it.next() }.map(|(_, p)| p as *mut Pr as usize))?;
+        hint_ok(n.saturating_sub(used), catch_unwind(AssertUnwindSafe(|| it.size_hint()))) }
     fn sorted_iter_lens(self, k: usize) -> Result<(), String> { let n = DoublePriorityQueue::len(&self); let mut it = self.into_sorted_iter(); let mut left = n;
         for j in 0..=k { if it.len() != left || it.size_hint() != (left, Some(left)) { return Err(format!("into_sorted_iter: len {} size_hint {:?} with {} elements left", it.len(), it.size_hint(), left)); }
             let x = if j % 2 == 0 { it.next() } else { it.next_back() }; if x.is_some() { left -= 1; } } Ok(()) }
@@ -239,7 +247,13 @@ static FAULTS: std::sync::atomic::AtomicBool = std::sync::atomic::AtomicBool::ne
 static WIDE: std::sync::atomic::AtomicBool = std::sync::atomic::AtomicBool::new(false);
 
 /// iter_mut consumed following `bits` (front / back): every element at most once, nothing after the first None, all of them if it ended
-fn walk<F: FnMut(bool, usize) -> Option<usize>>(n: usize, bits: u64, calls: usize, mut step: F) -> Result<(), String> {
+/// size_hint of a (possibly exhausted) iter_mut: no panic, and bounds that enclose what is left
+fn hint_ok(left: usize, h: std::thread::Result<(usize, Option<usize>)>) -> Result<(), String> {
+    match h { Err(_) => Err(format!("iter_mut().size_hint() panics with {} elements left", left)),
+              Ok((lo, hi)) => if lo <= left && hi.map_or(true, |x| x >= left) { Ok(()) } else { Err(format!("iter_mut().size_hint() = {:?} with {} elements left", (lo, hi), left)) } }
+}
+
+fn walk<F: FnMut(bool, usize) -> Option<usize>>(n: usize, bits: u64, calls: usize, mut step: F) -> Result<usize, String> {
     let mut seen = std::collections::BTreeSet::new(); let mut ended = false; let mut got = 0usize; let mut skipped = 0usize;
     for c in 0..calls {
         let back = (bits >> (c % 60)) & 1 == 1;
@@ -252,7 +266,7 @@ fn walk<F: FnMut(bool, usize) -> Option<usize>>(n: usize, bits: u64, calls: usiz
             None => { if !ended && got + skipped + skip < n { return Err(format!("iter_mut ended after {} yielded + {} skipped of {} elements (last call skipped {})", got, skipped, n, skip)); } ended = true; } }
     }
     if got + skipped > n { return Err(format!("iter_mut produced {} yielded + {} skipped of {} elements", got, skipped, n)); }
-    Ok(())
+    Ok(if ended { n } else { got + skipped })
 }
 
 fn observe<T: Q>(q: &T, m: &Model) -> Result<(), Fail> {
@@ -280,7 +294,7 @@ fn step<T: Q>(q: &mut T, m: &mut Model, r: &mut Rng, log: &mut Vec<String>) -> R
     let p = if WIDE.load(std::sync::atomic::Ordering::Relaxed) { r.below(100_000) as i32 - 50_000 } else if r.below(4) == 0 { r.below(1000) as i32 - 500 } else { r.below(7) as i32 };
     let tag = r.below(1_000_000) as u32;
     let faults = FAULTS.load(std::sync::atomic::Ordering::Relaxed);
-    let op = { let o = r.below(if faults { 32 } else { 24 }); if !faults && o == 23 { 24 } else { o } };
+    let op = { let o = r.below(if faults { 34 } else { 24 }); if !faults && o == 23 { 24 } else { o } };
     // an observable that is wrong right after an operation is also a failure of what that operation promises
     let oplabel = match op { 9 | 10 => "C11", 15 | 16 => "C08", 17 => "C08,C09", 18 | 19 => "C07", 20 => "C16", 21 => "C12", 22 => "C14,C15,C06,C07", 24 => "C17", _ => "" };
     match op {
@@ -348,6 +362,9 @@ fn step<T: Q>(q: &mut T, m: &mut Model, r: &mut Rng, log: &mut Vec<String>) -> R
         21 => { log.push(format!("get_mut({}).tag = {}", id, tag)); if q.set_tag(id, tag) { m.get_mut(&id).unwrap().0 = tag; } else { ck!(!m.contains_key(&id), "C03", "get_mut misses a stored item"); } }
         22 => { log.push("clone / eq / sorted / serde / convert".into());
             let c = q.clone(); ck!(c.same(q), "C14", "clone is not equal to its source");
+            { let mut d = T::new(); for j in 0..r.below(12) as u16 { d.push(It { id: 200 + j, tag: 0, own: Box::new(0) }, j as i32); }
+              d.clone_from_q(q); ck!(d.same(q) && q.same(&d), "C14", "a queue refreshed with clone_from is not equal to its source");
+              observe(&d, m).and_then(|_| drain_check(d, m, true)).map_err(|f| Fail { props: "C14".into(), what: format!("after clone_from: {}", f.what) })?; }
             { // same contents in other arrangements / one pair different
                 let mut v: Vec<(It, i32)> = m.iter().map(|(k, v)| (It { id: *k, tag: v.0, own: Box::new(0) }, v.1)).collect();
                 let a = T::from_vec(v.clone()); ck!(a.same(q) && q.same(&a), "C14", "a queue built from the same pairs (ascending item order) compares unequal");
@@ -378,6 +395,20 @@ fn step<T: Q>(q: &mut T, m: &mut Model, r: &mut Rng, log: &mut Vec<String>) -> R
                         ck!(hi == ps.iter().copied().max() && (T::kind() == "PriorityQueue" || lo == ps.iter().copied().min()), "C15", "deserializing {} gives a queue whose peeks {:?} are not its extremes", js, (lo, hi));
                         let mut d = d; let mut prev = i32::MAX; let mut cnt = 0; while let Some((_, p)) = d.pop_hi() { ck!(p <= prev, "C15", "deserializing {} gives a queue that pops out of order", js); prev = p; cnt += 1; }
                         ck!(cnt == ids.len(), "C15", "deserializing {} gives a queue that pops {} of {} elements", js, cnt, ids.len()); } } }
+            { // From<Vec> / FromIterator with repeated items: first resp. last priority per distinct item, a correctly ordered queue
+                let n = r.below(30) as usize; let mut v: Vec<(It, i32)> = vec![];
+                for _ in 0..n { let i = if !v.is_empty() && r.below(3) == 0 { v[r.below(v.len() as u64) as usize].0.id } else { r.below(40) as u16 }; v.push((It { id: i, tag: v.len() as u32, own: Box::new(0) }, r.below(9) as i32)); }
+                let mut first = Model::new(); let mut last = Model::new();
+                for (i, p) in &v { first.entry(i.id).or_insert((i.tag, *p)); let t = last.get(&i.id).map(|x: &(u32, i32)| x.0).unwrap_or(i.tag); last.insert(i.id, (t, *p)); }
+                for (which, want) in [(0, &first), (1, &last)] {
+                    let what = if which == 0 { "From<Vec>" } else { "FromIterator" };
+                    match catch_unwind(AssertUnwindSafe(|| if which == 0 { T::from_vec(v.clone()) } else { T::from_it(v.clone(), 0, None) })) {
+                        Err(_) => return Err(Fail { props: "C07,C04".into(), what: format!("{} of {} pairs with repeated items panicked", what, v.len()) }),
+                        Ok(d) => { let got: BTreeMap<u16, i32> = d.iter_pairs().iter().map(|x| (x.0, x.2)).collect(); let exp: BTreeMap<u16, i32> = want.iter().map(|(k, x)| (*k, x.1)).collect();
+                            ck!(got == exp && d.len() == exp.len(), "C07", "{} with repeated items: contents {:?}, expected {:?}", what, got, exp);
+                            let wm: Model = want.iter().map(|(k, x)| (*k, (0, x.1))).collect();
+                            match catch_unwind(AssertUnwindSafe(|| drain_check(d, &wm, true))) { Ok(Ok(())) => {}, Ok(Err(f)) => return Err(Fail { props: "C07".into(), what: format!("{} with repeated items: {}", what, f.what) }),
+                                Err(_) => return Err(Fail { props: "C07,C04".into(), what: format!("a queue built by {} from repeated items panics when drained", what) }) } } } } }
             let conv = c.convert(); ck!(conv.same(q), "C07", "conversion changed the contents"); *q = conv; }
         23 => { log.push("FAULT: mem::forget(iter_mut()) without writing through it".into()); q.leak_iter_mut(0); return Err(Fail { props: "FAULT".into(), what: String::new() }); }
         25 => { { let w = 1 + r.below(6) as usize; log.push(format!("FAULT: mem::forget(iter_mut()) after lowering the first {} priorities", w)); q.leak_iter_mut(w); return Err(Fail { props: "FAULT".into(), what: String::new() }); } }
@@ -385,6 +416,11 @@ fn step<T: Q>(q: &mut T, m: &mut Model, r: &mut Rng, log: &mut Vec<String>) -> R
                 FAULTS.store(false, std::sync::atomic::Ordering::Relaxed); TRIP.with(|t| t.set(k));
                 let _ = catch_unwind(AssertUnwindSafe(|| step(q, m, r, log)));
                 TRIP.with(|t| t.set(0)); FAULTS.store(true, std::sync::atomic::Ordering::Relaxed);
+                return Err(Fail { props: "FAULT".into(), what: String::new() }); }
+        32 | 33 => { let k = 1 + r.below(40) as u32; let n = r.below(45) as usize;
+                log.push(format!("FAULT: clone_from(a queue of {} elements) with the {}. call of the user's Clone / Hash / Eq / Ord panicking (caught)", n, k));
+                let mut o = T::new(); for j in 0..n { o.push(It { id: (j * 3 % 70) as u16, tag: 1, own: Box::new(0) }, (j % 9) as i32); }
+                TRIP.with(|t| t.set(k)); let _ = catch_unwind(AssertUnwindSafe(|| q.clone_from_q(&o))); TRIP.with(|t| t.set(0));
                 return Err(Fail { props: "FAULT".into(), what: String::new() }); }
         26 | 27 => { let which = r.below(7); let k = r.below(12) as usize; log.push(format!("FAULT: operation #{} whose callback panics at call {} (caught)", which, k + 1));
                 let which2 = if T::kind() == "PriorityQueue" || which < 6 { which } else { 5 };
